@@ -29,6 +29,7 @@ Require Import PV.Base.Prelude PV.Base.F64 PV.Model.Conc PV.Model.HistConc PV.Mo
 Require Import PV.Proofs.HistConcLemmas PV.Proofs.HistConcInv PV.Proofs.HistConcProof PV.Proofs.HistConcOwn.
 Require Import PV.Proofs.HistExecSound PV.Proofs.HistExecInv PV.Proofs.HistConcThms.
 Require Import PV.Proofs.HistValues PV.Proofs.HistLog PV.Proofs.HistReads PV.Proofs.HistWait PV.Proofs.HistMain.
+Require Import PV.Spec.SpecC02 PV.Proofs.HistSpecArith PV.Proofs.HistSpecSnap PV.Proofs.HistSpec.
 Require Import PV.gen.HistOrderings.
 Open Scope Z_scope.
 
@@ -137,6 +138,28 @@ Theorem c02_acquire_needed :
                   /\ res <> summary 0 (firstn k (recs s)).
 Proof. exact acquire_needed. Qed.
 
+
+(* ---------------------------------------------------------------- the validator implies the spec written from the text *)
+(* For ALL traces: a trace accepted by the executable model (the [chk] of tools/p_C02.py) that lies in the domain of the
+   executable spec satisfies the executable spec Spec/SpecC02.spec_hist (the [chk_spec] of tools/p_C02.py: every returned
+   snapshot decodes to ONE set S of invoked observations with count = |S|, buckets = #{v in S | v <= bound}, S contains every
+   observation that had returned when the collection was invoked, is closed under every thread's program order with
+   batches atomic, grows over earlier snapshots, is exactly everything for a collection that ran alone; quiescent
+   get_sample_count / get_sample_sum agree).  So the oracle can never raise an alarm on a trace the model accepts.
+   [in_domain] is the spec's own executable side condition: the values carried by the observe / flush call markers are
+   +-2^k with pairwise distinct exponents k < 53 (S is decodable from its sum; every sum is an exact binary64), and the
+   bucket bounds are non-decreasing.  Proofs/HistSpec*.v: decoding (subset sums of such values are unique), binary64
+   round trip (Flocq), and a simulation between the spec's marker bookkeeping and the ghost ticket log. *)
+Theorem c02_spec_of_validated bounds es x :
+  xrun bounds xinit es = Some x -> in_domain bounds es = true -> spec_hist bounds es = true.
+Proof. exact (spec_of_validated bounds es x). Qed.
+Theorem c02_spec_of_chk bounds es :
+  (match xrun bounds xinit es with Some _ => true | None => false end) = true -> in_domain bounds es = true -> spec_hist bounds es = true.
+Proof. destruct (xrun bounds xinit es) as [x|] eqn:E; [intros _; exact (spec_of_validated bounds es x E)|discriminate]. Qed.
+(* the decoding fact on its own: for values in the domain, the spec's decoder recovers exactly the member set from the sum *)
+Theorem c02_decode_unique obs l : Dom (all_vals obs) -> incl l (all_vals obs) -> NoDup l -> decode obs (zsum l) = Some (mask_of l).
+Proof. exact (decode_correct obs l). Qed.
+
 (* ---------------------------------------------------------------- non-vacuity: a trace of the real histogram *)
 (* bounds [2; 4]; thread 0: observe 1, then flush the batch [2; 8]; thread 1: collect three times, get_sample_count,
    get_sample_sum.  The first collection flips while observe(1) is between claim and publish, spins, and the batch
@@ -183,6 +206,11 @@ Proof.
   rewrite E in H. inversion H. reflexivity.
 Qed.
 
+(* the real trace above is inside the domain of the spec theorem (and the spec holds of it) *)
+Example c02_ex_in_domain : in_domain c02_ex_bounds c02_ex_trace = true /\ spec_hist c02_ex_bounds c02_ex_trace = true.
+Proof. vm_compute. auto. Qed.
+
+Check c02_spec_of_validated : forall bounds es x, xrun bounds xinit es = Some x -> in_domain bounds es = true -> spec_hist bounds es = true.
 Check c02_snapshot_is_prefix_model : forall B Od s k res, sufficient_orderings Od = true -> reach B Od s -> In (k, res) (snaps s) ->
   (k <= length (recs s))%nat /\ res = summary B (firstn k (recs s)).
 Check c02_snapshot_is_prefix : forall bounds es x c, xrun bounds xinit es = Some x -> In c (cuts x) ->
@@ -216,5 +244,9 @@ Print Assumptions c02_runtime_publish_is_release.
 Print Assumptions c02_runtime_wait_exit_is_acquire.
 Print Assumptions c02_release_needed.
 Print Assumptions c02_acquire_needed.
+Print Assumptions c02_spec_of_validated.
+Print Assumptions c02_spec_of_chk.
+Print Assumptions c02_decode_unique.
+Print Assumptions c02_ex_in_domain.
 Print Assumptions c02_ex_accepted.
 Print Assumptions c02_ex_hypotheses_satisfiable.
